@@ -488,7 +488,7 @@ Fixpoint erase (f : fmt) : fmt :=
   match f with
   | FVarBytes _ chk => FVarBytes BGrow chk
   | FList _ g => FList (LApp 0 0) (erase g)
-  | FListOf p _ g => FListOf p (LApp 0 0) (erase g)
+  | FListOf _ _ g => FListOf [] (LApp 0 0) (erase g)   (* the count source is reader-only *)
   | FOpt g => FOpt (erase g)
   | FField n g rest => FField n (erase g) (erase rest)
   | FStruct body => FStruct (erase body)
@@ -632,7 +632,7 @@ Fixpoint witness (f : fmt) : bytes * bool :=
         let (b, fd) := witness g in (1 :: b, fd)
       else (big_count m, true)
   | FList (LApp _ _) g => let (b, fd) := witness g in (1 :: b, fd)
-  | FListOf _ _ g => ([], false)
+  | FListOf _ _ g => witness g          (* the referenced list has one element, see FList *)
   | FOpt g => let (b, fd) := witness g in (1 :: b, fd)
   | FNil => ([], false)
   | FField _ g rest =>
